@@ -10,7 +10,7 @@
 from typing import Any, Optional, cast, TypeVar
 
 from elementpath.aliases import XPathParserType
-from elementpath.helpers import LazyPattern
+from elementpath.helpers import LazyPattern, collapse_white_spaces
 from .any_types import AnyAtomicType
 from .untyped import UntypedAtomic
 
@@ -71,7 +71,7 @@ class AbstractQName(AnyAtomicType):
 
         if not isinstance(qname, str):
             raise TypeError('the 2nd argument has an invalid type %r' % type(qname))
-        self.qname = qname.strip()
+        self.qname = collapse_white_spaces(qname)
 
         match = self.pattern.match(self.qname)
         if match is None:
